@@ -105,7 +105,7 @@ STD_DISCR = {"core::option::Option": {"None": 0, "Some": 1}, "core::result::Resu
              "core::ops::control_flow::ControlFlow": {"Continue": 0, "Break": 1}, "core::ops::ControlFlow": {"Continue": 0, "Break": 1}}
 
 
-def _known_variant(stmts, local, depth=0):
+def _known_variant(stmts, local, depth=0, names=False):
     """discriminant value of `local` at the end of a statement list, when its last assignment there builds a std enum variant
     (followed through plain moves); None when unknown"""
     for st in reversed(stmts):
@@ -116,11 +116,11 @@ def _known_variant(stmts, local, depth=0):
             continue
         rv = st["rv"]
         if rv["k"] == "agg" and rv.get("ak") == "adt" and rv.get("adt") in STD_DISCR:
-            return STD_DISCR[rv["adt"]].get(rv.get("variant"))
+            return rv.get("variant") if names else STD_DISCR[rv["adt"]].get(rv.get("variant"))
         if rv["k"] == "use" and rv["a"].get("k") in ("move", "copy") and not rv["a"]["p"].get("p") and depth < 4:
             # the moved-from local must have been set earlier in the same list
             idx = stmts.index(st)
-            return _known_variant(stmts[:idx], rv["a"]["p"]["l"], depth + 1)
+            return _known_variant(stmts[:idx], rv["a"]["p"]["l"], depth + 1, names)
         return None
     return None
 
@@ -138,6 +138,80 @@ def thread_variants(F):
             if t["k"] == "goto" and isinstance(t.get("t"), int):
                 preds.setdefault(t["t"], []).append(b["id"])
         did = False
+        # `x?` on a result whose variant the predecessor has just built: P -> C: `_r = Try::branch(move x)` -> J: switch discr(_r).
+        # branch(Ok/Some) is Continue, branch(Err/None) is Break: clone C and J for that predecessor and jump to the known arm.
+        for C in list(F["blocks"]):
+            ct = C["term"]
+            if ct["k"] != "call" or not (ct.get("callee") or "").endswith("Try::branch") or C.get("cleanup") or not isinstance(ct.get("t"), int):
+                continue
+            if len(ct.get("args", [])) != 1 or ct["args"][0].get("k") not in ("move", "copy") or ct["args"][0]["p"].get("p") or ct["dst"].get("p"):
+                continue
+            mvC = {}
+            okC = True
+            for st in C["stmts"]:
+                rv = st.get("rv", {})
+                if st["k"] == "assign" and not st["dst"].get("p") and rv.get("k") == "use" and rv["a"].get("k") in ("move", "copy") and not rv["a"]["p"].get("p"):
+                    mvC[st["dst"]["l"]] = rv["a"]["p"]["l"]
+                else:
+                    okC = False
+            if not okC:
+                continue
+            J = F["blocks"][ct["t"]]
+            jt = J["term"]
+            if jt["k"] != "switch" or len(J["stmts"]) != 1 or J["stmts"][0]["k"] != "assign" or J["stmts"][0]["rv"].get("k") != "discr":
+                continue
+            if J["stmts"][0]["rv"]["p"].get("l") != ct["dst"]["l"] or J["stmts"][0]["rv"]["p"].get("p") or jt["discr"].get("k") not in ("move", "copy") or jt["discr"]["p"]["l"] != J["stmts"][0]["dst"]["l"]:
+                continue
+            x = ct["args"][0]["p"]["l"]
+            n0 = 0
+            while x in mvC and n0 < 4:
+                x = mvC[x]
+                n0 += 1
+            work_c = []
+            for pid in list(preds.get(C["id"], [])):
+                P = F["blocks"][pid]
+                work_c.append((P, [], x))
+                # one forwarding block in between (the expanded helper's common return block: only moves, then goto C)
+                mvP = {}
+                pure = P["term"]["k"] == "goto" and not P.get("cleanup")
+                for st in P["stmts"]:
+                    rv = st.get("rv", {})
+                    if st["k"] == "assign" and not st["dst"].get("p") and rv.get("k") == "use" and rv["a"].get("k") in ("move", "copy") and not rv["a"]["p"].get("p"):
+                        mvP[st["dst"]["l"]] = rv["a"]["p"]["l"]
+                    else:
+                        pure = False
+                if pure:
+                    x2 = x
+                    n2 = 0
+                    while x2 in mvP and n2 < 4:
+                        x2 = mvP[x2]
+                        n2 += 1
+                    for qid in preds.get(P["id"], []):
+                        work_c.append((F["blocks"][qid], P["stmts"], x2))
+            for P, extra, xl in work_c:
+                if P["term"]["k"] != "goto":
+                    continue
+                vn = _known_variant(P["stmts"], xl, names=True)
+                if vn not in ("Ok", "Some", "Err", "None"):
+                    continue
+                dv = 0 if vn in ("Ok", "Some") else 1
+                hit = [tg for val, tg in jt["targets"] if val == dv]
+                tgt = hit[0] if hit else jt["otherwise"]
+                jclone = {"id": len(F["blocks"]), "stmts": copy.deepcopy(J["stmts"]), "term": {"k": "goto", "t": tgt, "sp": jt.get("sp"), "threaded_from": J["id"]}}
+                F["blocks"].append(jclone)
+                cterm = copy.deepcopy(ct)
+                cterm["t"] = jclone["id"]
+                cclone = {"id": len(F["blocks"]), "stmts": copy.deepcopy(extra) + copy.deepcopy(C["stmts"]), "term": cterm}
+                F["blocks"].append(cclone)
+                P["term"] = dict(P["term"])
+                P["term"]["t"] = cclone["id"]
+                did = changed = True
+        if did:
+            preds = {}
+            for b in F["blocks"]:
+                t0 = b["term"]
+                if t0["k"] == "goto" and isinstance(t0.get("t"), int):
+                    preds.setdefault(t0["t"], []).append(b["id"])
         for J in list(F["blocks"]):
             t = J["term"]
             if t["k"] != "switch" or J.get("cleanup") or t["discr"].get("k") not in ("move", "copy") or t["discr"]["p"].get("p"):
@@ -298,27 +372,58 @@ def alias_renames(prog):
 
     def callees(f):
         return {(b["term"].get("callee") or "?") for b in f["blocks"] if b["term"]["k"] == "call"}
-    cand = {}
-    for k in missing:
-        b = base_fns[k]
-        for n in new:
-            f = prog.fns[n]
-            if parent(n) != parent(k) or f.get("sig") != b.get("sig") or f.get("argc") != b.get("argc"):
-                continue
-            cs, bs = callees(f), set(b.get("callees", []))
-            # callee names may themselves have been renamed: compare with both sides' unknown names removed
-            inter = len(cs & bs)
-            union = len(cs | bs) or 1
-            if inter / union >= 0.6 or (not cs and not bs):
-                cand.setdefault(k, []).append(n)
     fn_ren = {}
-    used = {}
-    for k, ns in cand.items():
-        if len(ns) == 1:
-            used.setdefault(ns[0], []).append(k)
-    for n, ks in used.items():
-        if len(ks) == 1:
-            fn_ren[n] = ks[0]
+    # several rounds: leaf helpers are matched first; their new names are then translated in their callers' callee sets and in the
+    # parent paths of nested items, which lets the callers (and items nested in renamed functions) match in the next round
+    for _round in range(4):
+        def tr(name):
+            if name in fn_ren:
+                return fn_ren[name]
+            for n0, k0 in fn_ren.items():
+                if name.startswith(n0 + "::"):
+                    return k0 + name[len(n0):]
+            return name
+        scores = []
+        for k in missing:
+            if k in fn_ren.values():
+                continue
+            b = base_fns[k]
+            for n in new:
+                if n in fn_ren:
+                    continue
+                f = prog.fns[n]
+                if parent(tr(n)) != parent(k) or f.get("sig") != b.get("sig") or f.get("argc") != b.get("argc"):
+                    continue
+                # compare what both call, leaving out local callees whose own renaming is not settled yet (a renamed helper calling
+                # renamed helpers would otherwise never match)
+                def is_local(c):
+                    return c.split("::")[0] in prog.crates
+                cs = {tr(c) for c in callees(f)}
+                cs = {c for c in cs if not is_local(c) or c in base_fns or c in kn}
+                bs = {c for c in b.get("callees", []) if not is_local(c) or c in prog.fns or c in fn_ren.values()}
+                inter, union = len(cs & bs), (len(cs | bs) or 1)
+                sim = 1.0 if (not cs and not bs) else inter / union
+                nb = b.get("nblocks") or 1
+                size = 1.0 - min(1.0, abs(len(f["blocks"]) - nb) / max(nb, 1))
+                if sim >= 0.5:
+                    scores.append((sim + 0.25 * size, k, n))
+        # accept pairs that are each other's best candidate by a clear margin
+        best_for_k, best_for_n = {}, {}
+        for sc, k, n in sorted(scores, reverse=True):
+            best_for_k.setdefault(k, []).append((sc, n))
+            best_for_n.setdefault(n, []).append((sc, k))
+        added = False
+        for k, lst in best_for_k.items():
+            sc, n = lst[0]
+            if len(lst) > 1 and lst[1][0] > sc - 0.1:
+                continue
+            back = best_for_n[n]
+            if back[0][1] != k or (len(back) > 1 and back[1][0] > back[0][0] - 0.1):
+                continue
+            fn_ren[n] = k
+            added = True
+        if not added:
+            break
     if fn_ren:
         for n, k in fn_ren.items():
             f = prog.fns.pop(n)
